@@ -66,3 +66,15 @@ Theorem C04_scoped_frame : forall e i f, wf e -> (forall l, nonempty (l_scope l)
   forall j, (j <> i -> nth_error (collect (write (upd i f (collect e)))) j = nth_error (collect e) j)%nat.
 Proof. exact LayersGenProps.edit_one_layer. Qed.
 Print Assumptions C04_scoped_frame.
+
+(* which set an edit touches: the regenerated wrapper traversal (tools/target2v.py, Dyn/TargetProps.v) returns an attribute set and nothing else, enters no
+   node twice, and mutates nothing but resolution contexts (the state of the generated function is the visited list and the context store) *)
+From Dyn Require Import TargetGen TargetProps.
+Close Scope string_scope. Open Scope list_scope.
+Theorem C04_target_is_a_set : forall (w : world) fuel t sc s r s', target w fuel t sc s = (RVal r, s') -> w_cls w r = CSet.
+Proof. exact target_is_a_set. Qed.
+Print Assumptions C04_target_is_a_set.
+Theorem C04_target_visits_once : forall (w : world) fuel t sc s r s',
+  target w fuel t sc s = (r, s') -> exists l, fst s' = l ++ fst s /\ (NoDup (fst s) -> NoDup (fst s')).
+Proof. exact target_visits_once. Qed.
+Print Assumptions C04_target_visits_once.
